@@ -1,6 +1,7 @@
 //! `hv`: runtime-monitoring harnesses for the threaded (default-feature) build of Humphrey.
 //! One sub-command per property; each writes a result file for the driver.
 
+mod c01;
 mod c02;
 mod c03;
 mod c05;
@@ -23,6 +24,7 @@ static GLOBAL: hvcommon::alloc::Counting = hvcommon::alloc::Counting;
 fn main() {
     let args = Args::from_env();
     match args.cmd() {
+        "c01" => c01::main(&args),
         "c02" => c02::main(&args),
         "c03" => c03::main(&args),
         "c03-worker" => c03::worker(&args),
